@@ -36,6 +36,18 @@ type c20Op struct {
 	Uri    string `json:"uri,omitempty"`
 	Amount string `json:"amount,omitempty"`
 	Cancel bool   `json:"cancel,omitempty"`
+	// inputs that only Validate looks at (DeliverTx runs Validate since /repo d276709)
+	SignBy    int    `json:"signby,omitempty"`    // k>0: signed by actor k-1 although the message names Signer
+	Cur       string `json:"cur,omitempty"`       // amount currency, "" = OLT
+	BenefNull bool   `json:"benefnull,omitempty"` // beneficiary/account field is JSON null (nil address)
+}
+
+// c20StaticOk: the part of Validate the model takes as an input — signer set and currency
+func c20StaticOk(o *c20Op) bool {
+	if o.SignBy > 0 && o.SignBy-1 != o.Signer {
+		return false
+	}
+	return o.Cur == "" || o.Cur == "OLT"
 }
 
 type c20Scenario struct {
@@ -121,27 +133,45 @@ func c20Addr(actors []Key, i int) keys.Address {
 
 func c20BuildTx(actors []Key, o *c20Op, memo string) []byte {
 	u := actors[o.Signer]
-	a := oltAmt("0")
-	if o.Amount != "" {
-		a = oltAmt(o.Amount)
+	cur := "OLT"
+	if o.Cur != "" {
+		cur = o.Cur
 	}
+	a := curAmt(cur, "0")
+	if o.Amount != "" {
+		a = curAmt(cur, o.Amount)
+	}
+	var typ action.Type
+	var m marshaler
 	switch o.Kind {
 	case "create":
-		return mkTx(action.DOMAIN_CREATE, onsact.DomainCreate{Owner: u.Addr, Beneficiary: c20Addr(actors, o.Benef), Name: ons.Name(o.Name), Uri: o.Uri, BuyingPrice: a}, GAS, memo, u)
+		typ, m = action.DOMAIN_CREATE, onsact.DomainCreate{Owner: u.Addr, Beneficiary: c20Addr(actors, o.Benef), Name: ons.Name(o.Name), Uri: o.Uri, BuyingPrice: a}
 	case "update":
-		return mkTx(action.DOMAIN_UPDATE, onsact.DomainUpdate{Owner: u.Addr, Beneficiary: c20Addr(actors, o.Benef), Name: ons.Name(o.Name), Active: o.Active, Uri: o.Uri}, GAS, memo, u)
+		typ, m = action.DOMAIN_UPDATE, onsact.DomainUpdate{Owner: u.Addr, Beneficiary: c20Addr(actors, o.Benef), Name: ons.Name(o.Name), Active: o.Active, Uri: o.Uri}
 	case "sell":
-		return mkTx(action.DOMAIN_SELL, onsact.DomainSale{Name: ons.Name(o.Name), OwnerAddress: u.Addr, Price: a, CancelSale: o.Cancel}, GAS, memo, u)
+		typ, m = action.DOMAIN_SELL, onsact.DomainSale{Name: ons.Name(o.Name), OwnerAddress: u.Addr, Price: a, CancelSale: o.Cancel}
 	case "purchase":
-		return mkTx(action.DOMAIN_PURCHASE, onsact.DomainPurchase{Name: ons.Name(o.Name), Buyer: u.Addr, Account: c20Addr(actors, o.Benef), Offering: a}, GAS, memo, u)
+		typ, m = action.DOMAIN_PURCHASE, onsact.DomainPurchase{Name: ons.Name(o.Name), Buyer: u.Addr, Account: c20Addr(actors, o.Benef), Offering: a}
 	case "send":
-		return mkTx(action.DOMAIN_SEND, onsact.DomainSend{From: u.Addr, Name: ons.Name(o.Name), Amount: a}, GAS, memo, u)
+		typ, m = action.DOMAIN_SEND, onsact.DomainSend{From: u.Addr, Name: ons.Name(o.Name), Amount: a}
 	case "renew":
-		return mkTx(action.DOMAIN_RENEW, onsact.RenewDomain{Owner: u.Addr, Name: ons.Name(o.Name), BuyingPrice: a}, GAS, memo, u)
+		typ, m = action.DOMAIN_RENEW, onsact.RenewDomain{Owner: u.Addr, Name: ons.Name(o.Name), BuyingPrice: a}
 	case "deletesub":
-		return mkTx(action.DOMAIN_DELETE_SUB, onsact.DeleteSub{Name: ons.Name(o.Name), Owner: u.Addr}, GAS, memo, u)
+		typ, m = action.DOMAIN_DELETE_SUB, onsact.DeleteSub{Name: ons.Name(o.Name), Owner: u.Addr}
+	default:
+		panic("c20: unknown op kind " + o.Kind)
 	}
-	panic("c20: unknown op kind " + o.Kind)
+	data, err := m.Marshal()
+	must(err)
+	if o.BenefNull {
+		// a nil address travels as JSON null (an empty one as "0lt")
+		data = []byte(strings.Replace(strings.Replace(string(data), `"beneficiary":"0lt"`, `"beneficiary":null`, 1), `"account":"0lt"`, `"account":null`, 1))
+	}
+	key := u
+	if o.SignBy > 0 {
+		key = actors[o.SignBy-1]
+	}
+	return signTx(typ, data, GAS, memo, key)
 }
 
 func c20AddrIndex(actors []Key, a keys.Address) int {
@@ -344,7 +374,7 @@ func c20CoqCase(tr *c20Trace) string {
 			fmt.Fprintf(&b, "    SEnd %s", c20CoqObs(&st.Obs))
 		} else {
 			fee := "(Some " + c20Z(st.Fee) + ")"
-			fmt.Fprintf(&b, "    STx (%s) %d %d %s %s %s", c20CoqOp(st.Op), st.H, st.V, fee, c20Bool(st.Ok), c20CoqObs(&st.Obs))
+			fmt.Fprintf(&b, "    STx (%s) %d %d %s %s %s %s %s", c20CoqOp(st.Op), st.H, st.V, fee, c20Bool(c20StaticOk(st.Op)), c20Bool(st.Op.BenefNull), c20Bool(st.Ok), c20CoqObs(&st.Obs))
 		}
 	}
 	b.WriteString("] |}")
@@ -373,6 +403,24 @@ func c20Add(a, b string) string {
 // c20GenOp draws one operation, biased by the current registry (as last observed) so that a good
 // share of operations passes the existence/ownership/expiry gates and the rest are strangers'.
 func c20GenOp(r *rand.Rand, sc *c20Scenario, reg map[string]c20Dom, h int64) c20Op {
+	o := c20GenOp0(r, sc, reg, h)
+	// inputs only Validate rejects: foreign signature, foreign / unknown currency, nil beneficiary
+	switch r.Intn(40) {
+	case 0:
+		o.SignBy = 1 + r.Intn(c20NActors)
+	case 1:
+		if o.Kind == "create" || o.Kind == "sell" || o.Kind == "purchase" || o.Kind == "renew" {
+			o.Cur = []string{"ETH", "XYZ"}[r.Intn(2)]
+		}
+	case 2, 3:
+		if o.Benef < 0 && (o.Kind == "create" || o.Kind == "update" || o.Kind == "purchase") {
+			o.BenefNull = true
+		}
+	}
+	return o
+}
+
+func c20GenOp0(r *rand.Rand, sc *c20Scenario, reg map[string]c20Dom, h int64) c20Op {
 	name := c20Names[r.Intn(len(c20Names))]
 	if r.Intn(25) == 0 {
 		name = c20BadNames[r.Intn(len(c20BadNames))]
@@ -570,6 +618,44 @@ func c20Directed() []c20Scenario {
 		{Label: "expiry_blocks_ge_2p63", PerBlock: "1", Base: "1", Blocks: [][]c20Op{
 			{cr(0, "n.ol", olt(10)), cr(1, "m.ol", olt(9))},
 			{},
+		}},
+		// D4: a listing must not outlive an expired-name purchase: sell at P, expire, B buys the expired
+		// name (sub-name present), stranger C offers the old price P / more: refused
+		{Label: "stale_listing_after_expired_purchase", PerBlock: pb, Base: base, Blocks: [][]c20Op{
+			{cr(0, "n.ol", olt(8))}, {cr(0, "a.n.ol", olt(6))},
+			{{Kind: "sell", Signer: 0, Benef: -1, Name: "n.ol", Amount: olt(2)}},
+			{}, {}, {},
+			{{Kind: "purchase", Signer: 1, Benef: 1, Name: "n.ol", Amount: olt(8)}},
+			{{Kind: "purchase", Signer: 2, Benef: 2, Name: "n.ol", Amount: olt(2)}, {Kind: "purchase", Signer: 3, Benef: 3, Name: "n.ol", Amount: olt(4)}},
+			{{Kind: "update", Signer: 1, Benef: 1, Name: "n.ol", Active: true, Uri: "http://b.owner"}},
+		}},
+		// D5: neighbour — the sale is cancelled before the name expires
+		{Label: "cancelled_listing_then_expired_purchase", PerBlock: pb, Base: base, Blocks: [][]c20Op{
+			{cr(0, "n.ol", olt(9))},
+			{{Kind: "sell", Signer: 0, Benef: -1, Name: "n.ol", Amount: olt(2)}},
+			{{Kind: "sell", Signer: 0, Benef: -1, Name: "n.ol", Amount: olt(2), Cancel: true}},
+			{}, {}, {}, {},
+			{{Kind: "purchase", Signer: 1, Benef: 1, Name: "n.ol", Amount: olt(8)}},
+			{{Kind: "purchase", Signer: 2, Benef: 2, Name: "n.ol", Amount: olt(3)}},
+		}},
+		// D6: neighbour — renewed instead of expired: the live listing is bought once (legitimately), not twice
+		{Label: "renewed_listing_bought_once", PerBlock: pb, Base: base, Blocks: [][]c20Op{
+			{cr(0, "n.ol", olt(8))}, {cr(0, "a.n.ol", olt(6)), cr(0, "b.n.ol", olt(6))},
+			{{Kind: "sell", Signer: 0, Benef: -1, Name: "n.ol", Amount: olt(2)}},
+			{{Kind: "renew", Signer: 0, Benef: -1, Name: "n.ol", Amount: olt(6)}},
+			{}, {},
+			{{Kind: "purchase", Signer: 1, Benef: 1, Name: "n.ol", Amount: olt(3)}},
+			{{Kind: "purchase", Signer: 2, Benef: 2, Name: "n.ol", Amount: olt(3)}},
+			{{Kind: "sell", Signer: 1, Benef: -1, Name: "n.ol", Amount: olt(4)}},
+			{{Kind: "purchase", Signer: 2, Benef: 2, Name: "n.ol", Amount: olt(4)}},
+		}},
+		// D7: what only Validate rejects: foreign signature, foreign currency, nil beneficiary on deactivation
+		{Label: "validate_only_rejections", PerBlock: pb, Base: base, Blocks: [][]c20Op{
+			{cr(0, "n.ol", olt(50))},
+			{{Kind: "update", Signer: 0, Benef: 2, Name: "n.ol", Active: true, Uri: "", SignBy: 2}, {Kind: "sell", Signer: 0, Benef: -1, Name: "n.ol", Amount: olt(2), SignBy: 3}},
+			{{Kind: "sell", Signer: 0, Benef: -1, Name: "n.ol", Amount: olt(2)}},
+			{{Kind: "purchase", Signer: 1, Benef: 1, Name: "n.ol", Amount: olt(3), Cur: "ETH"}, {Kind: "renew", Signer: 0, Benef: -1, Name: "n.ol", Amount: olt(3), Cur: "XYZ"}},
+			{{Kind: "update", Signer: 0, Benef: -1, Name: "n.ol", Active: false, Uri: "", BenefNull: true}, {Kind: "update", Signer: 0, Benef: -1, Name: "n.ol", Active: false, Uri: ""}},
 		}},
 		// D3: expiry, renewal, purchase of an expired name
 		{Label: "expire_and_rebuy", PerBlock: pb, Base: base, Blocks: [][]c20Op{
